@@ -83,6 +83,7 @@ def main():
             placed.append(os.path.join(dest_dir, f))
         demo_cmd = re.sub(r"cd\s+\S+\s*&&\s*", "", demo_cmd)
         demo_cmd = re.sub(r"export [^;&]+(&&|;)\s*", "", demo_cmd)
+        demo_cmd = re.sub(r"cp\s+\S+\s+\S+\s*(&&|;)\s*", "", demo_cmd)
         if "-vet=off" not in demo_cmd:
             demo_cmd = demo_cmd.replace("go test", "go test -vet=off", 1)
         rc1, out1 = sh(demo_cmd, cwd=wt, timeout=900)
